@@ -172,6 +172,13 @@ def boundary_match_dates(years):
                 if dd.year == y or (m, d) == (12, 31):
                     out.add(k)
         out.add(date(y, 1, 1).toordinal()); out.add(date(y, 1, 2).toordinal())
+    # the first, the 30th/31st and the last day of every month of the first year (day-of-month against day-of-cut-off
+    # comparisons go wrong exactly there), and the 15th
+    y = years[0]
+    for m in range(1, 13):
+        last = calendar.monthrange(y, m)[1]
+        for d in (1, 15, 30, last):
+            if d <= last: out.add(date(y, m, d).toordinal())
     return sorted(o for o in out if date.fromordinal(o).year in years)
 
 def full_range(md, span=110):
